@@ -4,9 +4,9 @@ import NunVerif.Proofs.AL
 # C17 — `$connections` equals the number of open sessions on the database
 
 Counter bookkeeping of `use-db` / `Client::left` in the model (`Node.processObj … (.useDb …)`,
-`Node.left`). The sequence-level invariant (counter = number of bound open sessions, for every
-connect / use-db / disconnect history) is checked exhaustively against the implementation by
-checks/c17.py; the lemmas below are the step facts it rests on.
+`Node.left`). The sequence-level invariant (counter = number of bound open sessions, for every use-db /
+disconnect history) is `C17_counter_equals_bound_sessions` at the end of this file; the first
+lemmas are step facts, checks/c17.py ties the model to the code.
 -/
 namespace Nun
 
@@ -34,5 +34,430 @@ theorem C17_close_removes_session (n : Node) (sid : Sid) : AL.get? (n.close sid)
   split
   split
   exact AL.get?_erase_same _ _
+
+end Nun
+
+/-! ## The sequence-level invariant: counter = number of bound sessions, for every history -/
+
+namespace Nun
+
+theorem replicateChange_frame (n : Node) (d : Bytes) (c : Change) :
+    (n.replicateChange d c).1.dbs = n.dbs ∧ (n.replicateChange d c).1.sessions = n.sessions := by
+  unfold Node.replicateChange
+  split <;> simp [Node.replicateWeb, Node.tick]
+
+/-- `apply_change` (and with it `set_key_value`) touches neither the counter of the database it
+writes, nor its name, nor any other database or session of the node -/
+theorem applyChange_frame (n : Node) (db : Db) (c : Change) :
+    (n.applyChange db c).2.1.conns = db.conns ∧ (n.applyChange db c).2.1.name = db.name ∧
+    (n.applyChange db c).1.dbs = n.dbs ∧ (n.applyChange db c).1.sessions = n.sessions := by
+  unfold Node.applyChange
+  have hs := setValue_conns db c
+  split
+  · rename_i db' k v ps heq
+    rw [heq] at hs
+    exact ⟨hs.1, hs.2.1, rfl, rfl⟩
+  · rename_i key ov ver old change state ps heq
+    cases db.strategy with
+    | none => exact ⟨rfl, rfl, rfl, rfl⟩
+    | newer =>
+      simp only []
+      split
+      · have h2 := setValue_conns db { key := key, value := change.value, version := ov, opId := n.clock, resolve := true }
+        simp only [Node.tick]
+        exact ⟨h2.1, h2.2.1, trivial, trivial⟩
+      · exact ⟨rfl, rfl, rfl, rfl⟩
+    | arbiter =>
+      simp only []
+      split
+      · exact ⟨rfl, rfl, rfl, rfl⟩
+      · split
+        · exact ⟨rfl, rfl, rfl, rfl⟩
+        · simp only [Node.tick]
+          have h3 := setValue_conns (db.setValueVersion change.key old.value inConflict state old.vaddr old.kaddr old.opId)
+            { key := conflictKey change, value := noticeText db.name change key old ov ver ((db.setValueVersion change.key old.value inConflict state old.vaddr old.kaddr old.opId).listConflictKeys change.key), version := -1, opId := n.clock, resolve := false }
+          refine ⟨h3.1, h3.2.1, ?_, ?_⟩
+          · exact (replicateChange_frame _ _ _).1
+          · exact (replicateChange_frame _ _ _).2
+
+end Nun
+
+namespace Nun
+
+/-- the sessions bound to database `name` -/
+def boundTo (n : Node) (name : Bytes) : Nat := (n.sessions.filter fun p => p.2.db == some name).length
+
+theorem count_put {β : Type} (l : List (Sid × β)) (k : Sid) (v : β) (q : β → Bool) (hn : AL.NoDupKeys l) :
+    ((AL.put l k v).filter fun p => q p.2).length + (((AL.get? l k).map fun o => if q o then 1 else 0).getD 0)
+      = (l.filter fun p => q p.2).length + (if q v then 1 else 0) := by
+  induction l with
+  | nil => cases hq : q v <;> simp [AL.put, AL.get?, List.filter, hq]
+  | cons h t ih =>
+    obtain ⟨k0, v0⟩ := h
+    unfold AL.NoDupKeys at hn
+    simp only [List.map_cons, List.nodup_cons] at hn
+    by_cases hk : k0 = k
+    · subst hk
+      simp only [AL.put, AL.get?, if_true, List.filter_cons]
+      cases hq1 : q v <;> cases hq2 : q v0 <;> simp [hq1, hq2]
+    · simp only [AL.put, AL.get?, hk, if_false, List.filter_cons]
+      have := ih hn.2
+      cases hq : q v0 <;> simp [hq] <;> omega
+
+end Nun
+
+namespace Nun
+
+theorem setConnCounter_frame (n : Node) (db : Db) :
+    (n.setConnCounter db).2.1.conns = db.conns ∧ (n.setConnCounter db).2.1.name = db.name ∧
+    (n.setConnCounter db).1.dbs = n.dbs ∧ (n.setConnCounter db).1.sessions = n.sessions := by
+  unfold Node.setConnCounter Node.setKeyValue
+  simp only [Node.tick]
+  have := applyChange_frame { n with clock := n.clock + 1 } db
+    { key := Gen.connectionsKey, value := Bytes.ofNat db.conns, version := -1, opId := n.clock, resolve := false }
+  generalize Node.applyChange _ _ _ = r at this ⊢
+  obtain ⟨n', db', resp, evs⟩ := r
+  exact this
+
+structure ConnInv (n : Node) : Prop where
+  nodupDbs : AL.NoDupKeys n.dbs
+  nodupSess : AL.NoDupKeys n.sessions
+  names : ∀ name db, AL.get? n.dbs name = some db → db.name = name
+  counts : ∀ name db, AL.get? n.dbs name = some db → db.conns = boundTo n name
+
+/-- the node after `Client::left` and the removal of the session (the end of every disconnect) -/
+def Node.leaveAndDrop (n : Node) (sid : Sid) : Node := { (n.left sid).1 with sessions := AL.erase (n.left sid).1.sessions sid }
+
+theorem boundTo_setSession (n : Node) (sid : Sid) (s' : Session) (name : Bytes) (hn : AL.NoDupKeys n.sessions) :
+    boundTo (n.setSession sid s') name + (((AL.get? n.sessions sid).map fun o => if o.db == some name then 1 else 0).getD 0)
+      = boundTo n name + (if s'.db == some name then 1 else 0) := by
+  unfold boundTo Node.setSession
+  simp only []
+  exact count_put n.sessions sid s' (fun s => s.db == some name) hn
+
+end Nun
+
+namespace Nun
+
+theorem releaseSelected_none (n : Node) (s : Session) (h : s.db = none ∨ ∃ prev, s.db = some prev ∧ AL.get? n.dbs prev = none) :
+    (n.releaseSelected s).1 = n := by
+  unfold Node.releaseSelected Node.db?
+  rcases h with h | ⟨prev, h1, h2⟩
+  · simp [h]
+  · simp [h1, h2]
+
+theorem releaseSelected_some (n : Node) (s : Session) (prev : Bytes) (pdb : Db) (h1 : s.db = some prev) (h2 : AL.get? n.dbs prev = some pdb) :
+    ∃ pdb', pdb'.conns = pdb.conns - 1 ∧ pdb'.name = pdb.name ∧
+      (n.releaseSelected s).1.dbs = AL.put n.dbs pdb'.name pdb' ∧ (n.releaseSelected s).1.sessions = n.sessions := by
+  unfold Node.releaseSelected Node.db?
+  simp only [h1, h2]
+  have hf := setConnCounter_frame n { pdb with conns := pdb.conns - 1 }
+  generalize n.setConnCounter { pdb with conns := pdb.conns - 1 } = r at hf ⊢
+  obtain ⟨n', pdb', evs⟩ := r
+  simp only [] at hf ⊢
+  refine ⟨pdb', hf.1, hf.2.1, ?_, ?_⟩
+  · simp [Node.setDb, hf.2.2.1]
+  · simp [Node.setDb, hf.2.2.2]
+
+theorem countSelected_none (n : Node) (name : Bytes) (h : AL.get? n.dbs name = none) : (n.countSelected name).1 = n := by
+  unfold Node.countSelected Node.db?
+  simp [h]
+
+theorem countSelected_some (n : Node) (name : Bytes) (db : Db) (h : AL.get? n.dbs name = some db) :
+    ∃ db', db'.conns = db.conns + 1 ∧ db'.name = db.name ∧
+      (n.countSelected name).1.dbs = AL.put n.dbs db'.name db' ∧ (n.countSelected name).1.sessions = n.sessions := by
+  unfold Node.countSelected Node.db?
+  simp only [h]
+  have hf := setConnCounter_frame n { db with conns := db.conns + 1 }
+  generalize n.setConnCounter { db with conns := db.conns + 1 } = r at hf ⊢
+  obtain ⟨n', db', evs⟩ := r
+  simp only [] at hf ⊢
+  refine ⟨db', hf.1, hf.2.1, ?_, ?_⟩
+  · simp [Node.setDb, hf.2.2.1]
+  · simp [Node.setDb, hf.2.2.2]
+
+end Nun
+
+namespace Nun
+
+theorem beq_some_eq (a : Option Bytes) (k : Bytes) : (a == some k) = true ↔ a = some k := by
+  cases a <;> simp
+
+/-- phase A: the session lets go of its database -/
+theorem release_inv (n : Node) (sid : Sid) (s : Session) (h : ConnInv n) (hs : n.session sid = s)
+    (hex : s.db ≠ none → AL.get? n.sessions sid = some s) :
+    ConnInv { (n.releaseSelected s).1 with sessions := AL.put n.sessions sid { s with db := none } } := by
+  obtain ⟨hnd, hns, hnames, hcounts⟩ := h
+  -- how the bound counts move
+  have hb : ∀ k, boundTo { (n.releaseSelected s).1 with sessions := AL.put n.sessions sid { s with db := none } } k
+              + (((AL.get? n.sessions sid).map fun o => if o.db == some k then 1 else 0).getD 0) = boundTo n k := by
+    intro k
+    have := count_put n.sessions sid { s with db := none } (fun x => x.db == some k) hns
+    simpa [boundTo] using this
+  cases hdb : s.db with
+  | none =>
+    rw [releaseSelected_none n s (Or.inl hdb)]
+    refine ⟨hnd, AL.noDupKeys_put _ _ _ hns, hnames, ?_⟩
+    intro k db hk
+    have := hb k
+    rw [releaseSelected_none n s (Or.inl hdb)] at this
+    have hc := hcounts k db hk
+    -- the session was not bound to anything: nothing to subtract
+    have hz : (((AL.get? n.sessions sid).map fun o => if o.db == some k then 1 else 0).getD 0) = 0 := by
+      cases hg : AL.get? n.sessions sid with
+      | none => simp
+      | some o =>
+        have : o = s := by
+          have := hs; unfold Node.session at this; rw [hg] at this; simpa using this
+        subst this; simp [hdb]
+    simp only [] at this ⊢
+    omega
+  | some prev =>
+    have hsess : AL.get? n.sessions sid = some s := hex (by rw [hdb]; simp)
+    cases hp : AL.get? n.dbs prev with
+    | none =>
+      rw [releaseSelected_none n s (Or.inr ⟨prev, hdb, hp⟩)]
+      refine ⟨hnd, AL.noDupKeys_put _ _ _ hns, hnames, ?_⟩
+      intro k db hk
+      have := hb k
+      rw [releaseSelected_none n s (Or.inr ⟨prev, hdb, hp⟩)] at this
+      have hc := hcounts k db hk
+      have hkp : k ≠ prev := by intro h; subst h; rw [hp] at hk; simp at hk
+      have hz : (((AL.get? n.sessions sid).map fun o => if o.db == some k then 1 else 0).getD 0) = 0 := by
+        rw [hsess]; simp [hdb]; intro h; exact hkp h.symm
+      simp only [] at this ⊢
+      omega
+    | some pdb =>
+      obtain ⟨pdb', hc1, hn1, hdbs, _⟩ := releaseSelected_some n s prev pdb hdb hp
+      have hpn : pdb.name = prev := hnames prev pdb hp
+      refine ⟨?_, AL.noDupKeys_put _ _ _ hns, ?_, ?_⟩
+      · simp only []; rw [hdbs]; exact AL.noDupKeys_put _ _ _ hnd
+      · intro k db hk
+        simp only [] at hk; rw [hdbs, AL.get?_put] at hk
+        split at hk
+        · rename_i hkk; simp at hk; subst hk; rw [← hkk]
+        · exact hnames k db hk
+      · intro k db hk
+        have hbk := hb k
+        simp only [] at hk hbk ⊢; rw [hdbs, AL.get?_put] at hk
+        rw [hsess] at hbk
+        simp only [Option.map_some, Option.getD_some, hdb] at hbk
+        split at hk
+        · rename_i hkk
+          simp at hk; subst hk
+          have hk' : prev = k := by rw [← hkk, hn1, hpn]
+          subst hk'
+          have := hcounts prev pdb hp
+          simp at hbk
+          omega
+        · rename_i hkk
+          have hkp : ¬ prev = k := by intro h; apply hkk; rw [hn1, hpn, h]
+          have := hcounts k db hk
+          simp [hkp] at hbk
+          omega
+
+end Nun
+
+namespace Nun
+
+/-- phase B: a session that is bound to nothing selects `name` -/
+theorem bind_inv (m : Node) (sid : Sid) (s' : Session) (name : Bytes) (h : ConnInv m) (hs' : s'.db = some name)
+    (hfree : ∀ o, AL.get? m.sessions sid = some o → o.db = none) :
+    ConnInv ((m.setSession sid s').countSelected name).1 := by
+  obtain ⟨hnd, hns, hnames, hcounts⟩ := h
+  have hb : ∀ k, boundTo (m.setSession sid s') k = boundTo m k + (if name = k then 1 else 0) := by
+    intro k
+    have := boundTo_setSession m sid s' k hns
+    have hz : (((AL.get? m.sessions sid).map fun o => if o.db == some k then 1 else 0).getD 0) = 0 := by
+      cases hg : AL.get? m.sessions sid with
+      | none => simp
+      | some o => simp [hfree o hg]
+    rw [hz, hs'] at this
+    by_cases hk : name = k <;> simp [hk] at this ⊢ <;> omega
+  have hsd : (m.setSession sid s').dbs = m.dbs := rfl
+  cases hdb : AL.get? m.dbs name with
+  | none =>
+    rw [countSelected_none _ name (by rw [hsd]; exact hdb)]
+    refine ⟨hnd, AL.noDupKeys_put _ _ _ hns, hnames, ?_⟩
+    intro k db hk
+    have hkn : ¬ name = k := by intro h; subst h; rw [hsd, hdb] at hk; simp at hk
+    rw [hb k]; simp [hkn]; exact hcounts k db hk
+  | some db =>
+    obtain ⟨db', hc1, hn1, hdbs, hsess⟩ := countSelected_some (m.setSession sid s') name db (by rw [hsd]; exact hdb)
+    have hdn : db.name = name := hnames name db hdb
+    refine ⟨?_, ?_, ?_, ?_⟩
+    · rw [hdbs]; exact AL.noDupKeys_put _ _ _ hnd
+    · rw [hsess]; exact AL.noDupKeys_put _ _ _ hns
+    · intro k d hk
+      rw [hdbs, AL.get?_put] at hk
+      split at hk
+      · rename_i hkk; simp at hk; subst hk; rw [← hkk]
+      · exact hnames k d hk
+    · intro k d hk
+      have hbk : boundTo ((m.setSession sid s').countSelected name).1 k = boundTo (m.setSession sid s') k := by
+        unfold boundTo; rw [hsess]
+      rw [hbk, hb k]
+      rw [hdbs, AL.get?_put] at hk
+      split at hk
+      · rename_i hkk
+        simp at hk; subst hk
+        have hk' : name = k := by rw [← hkk, hn1, hdn]
+        subst hk'
+        have := hcounts name db hdb
+        simp; omega
+      · rename_i hkk
+        have hkn : ¬ name = k := by intro h; apply hkk; rw [hn1, hdn, h]
+        have := hcounts k d hk
+        simp [hkn]; exact this
+
+end Nun
+
+namespace Nun
+
+theorem releaseSelected_sessions (n : Node) (s : Session) : (n.releaseSelected s).1.sessions = n.sessions := by
+  cases hdb : s.db with
+  | none => rw [releaseSelected_none n s (Or.inl hdb)]
+  | some prev =>
+    cases hp : AL.get? n.dbs prev with
+    | none => rw [releaseSelected_none n s (Or.inr ⟨prev, hdb, hp⟩)]
+    | some pdb => exact (releaseSelected_some n s prev pdb hdb hp).choose_spec.2.2.2
+
+theorem session_of_get (n : Node) (sid : Sid) (h : (n.session sid).db ≠ none) : AL.get? n.sessions sid = some (n.session sid) := by
+  unfold Node.session at *
+  cases hg : AL.get? n.sessions sid with
+  | none => rw [hg] at h; simp at h
+  | some o => simp
+
+/-- **use-db keeps the books**: whatever the outcome (unknown database, wrong token, first
+selection, re-selection of the same or of another database), every database's counter still equals
+the number of sessions bound to it -/
+theorem C17_usedb_keeps_invariant (fuel : Node → Sid → Bytes → Node × Out) (n : Node) (sid : Sid)
+    (token name : Bytes) (user : Option Bytes) (h : ConnInv n) :
+    ConnInv (n.processObj fuel sid (.useDb token name user)).1 := by
+  simp only [Node.processObj]
+  cases hdb : n.db? name with
+  | none => exact h
+  | some db =>
+    simp only []
+    split
+    · -- accepted
+      generalize hs' : (match user with
+          | some u => ({ n.session sid with db := some name, user := some u } : Session)
+          | none => { n.session sid with db := some name }) = s'
+      have hsdb : s'.db = some name := by subst hs'; cases user <;> rfl
+      have hA := release_inv n sid (n.session sid) h rfl (session_of_get n sid)
+      have hB := bind_inv _ sid s' name hA hsdb (by
+        intro o ho; simp only [AL.get?_put_same, Option.some.injEq] at ho; subst ho; rfl)
+      have heq : ({ (n.releaseSelected (n.session sid)).1 with sessions := AL.put n.sessions sid { n.session sid with db := none } } : Node).setSession sid s'
+                = (n.releaseSelected (n.session sid)).1.setSession sid s' := by
+        simp only [Node.setSession, AL.put_put_same, releaseSelected_sessions]
+      rw [heq] at hB
+      subst hs'
+      exact hB
+    · exact h
+
+end Nun
+
+namespace Nun
+
+theorem count_erase {β : Type} (l : List (Sid × β)) (k : Sid) (q : β → Bool) (hn : AL.NoDupKeys l) :
+    ((AL.erase l k).filter fun p => q p.2).length + (((AL.get? l k).map fun o => if q o then 1 else 0).getD 0)
+      = (l.filter fun p => q p.2).length := by
+  induction l with
+  | nil => simp [AL.erase, AL.get?]
+  | cons h t ih =>
+    obtain ⟨k0, v0⟩ := h
+    unfold AL.NoDupKeys at hn
+    simp only [List.map_cons, List.nodup_cons] at hn
+    by_cases hk : k0 = k
+    · subst hk
+      -- the rest of the list does not contain k0 again
+      have hnot : AL.get? t k0 = none := (AL.get?_none_iff_not_mem_keys t k0).2 hn.1
+      have := ih hn.2
+      rw [hnot] at this
+      simp only [AL.erase, AL.get?, if_true, List.filter_cons]
+      cases hq : q v0 <;> simp [hq] at this ⊢ <;> omega
+    · simp only [AL.erase, AL.get?, hk, if_false, List.filter_cons]
+      have := ih hn.2
+      cases hq : q v0 <;> simp [hq] <;> omega
+
+theorem left_eq_release (n : Node) (sid : Sid) : n.left sid = n.releaseSelected (n.session sid) := by
+  unfold Node.left Node.releaseSelected
+  cases (n.session sid).db with
+  | none => rfl
+  | some d =>
+    simp only []
+    cases n.db? d <;> rfl
+
+/-- dropping a session that is bound to nothing keeps the books -/
+theorem drop_free_session (m : Node) (sid : Sid) (h : ConnInv m) (hfree : ∀ o, AL.get? m.sessions sid = some o → o.db = none) :
+    ConnInv { m with sessions := AL.erase m.sessions sid } := by
+  obtain ⟨hnd, hns, hnames, hcounts⟩ := h
+  refine ⟨hnd, AL.noDupKeys_erase _ _ hns, hnames, ?_⟩
+  intro k db hk
+  have := count_erase m.sessions sid (fun x => x.db == some k) hns
+  have hz : (((AL.get? m.sessions sid).map fun o => if o.db == some k then 1 else 0).getD 0) = 0 := by
+    cases hg : AL.get? m.sessions sid with
+    | none => simp
+    | some o => simp [hfree o hg]
+  have hc := hcounts k db hk
+  simp only [boundTo] at hc ⊢
+  omega
+
+/-- **disconnect keeps the books** (`Client::left` + the session going away) -/
+theorem C17_disconnect_keeps_invariant (n : Node) (sid : Sid) (h : ConnInv n) : ConnInv (n.leaveAndDrop sid) := by
+  unfold Node.leaveAndDrop
+  rw [left_eq_release]
+  have hA := release_inv n sid (n.session sid) h rfl (session_of_get n sid)
+  have hD := drop_free_session _ sid hA (by
+    intro o ho; simp only [AL.get?_put_same, Option.some.injEq] at ho; subst ho; rfl)
+  simp only [releaseSelected_sessions]
+  have : AL.erase (AL.put n.sessions sid { n.session sid with db := none }) sid = AL.erase n.sessions sid := by
+    induction n.sessions with
+    | nil => simp [AL.put, AL.erase]
+    | cons hd tl ih =>
+      obtain ⟨k0, v0⟩ := hd
+      by_cases hk : k0 = sid
+      · subst hk; simp [AL.put, AL.erase]
+      · simp [AL.put, AL.erase, hk, ih]
+  simp only [this] at hD
+  exact hD
+
+/-- what a client can do to the bookkeeping -/
+inductive ConnOp
+  | useDb (sid : Sid) (token name : Bytes) (user : Option Bytes)
+  | disconnect (sid : Sid)
+
+def connStep (fuel : Node → Sid → Bytes → Node × Out) (n : Node) : ConnOp → Node
+  | .useDb sid token name user => (n.processObj fuel sid (.useDb token name user)).1
+  | .disconnect sid => n.leaveAndDrop sid
+
+/-- **C17, for every history**: from a state in which the books are right, after ANY sequence of
+use-db commands (accepted or refused, first selections and re-selections, with database or user
+tokens) and disconnects by any sessions, every database's counter equals the number of sessions
+bound to it -/
+theorem C17_counter_equals_bound_sessions (fuel : Node → Sid → Bytes → Node × Out) (n : Node) (ops : List ConnOp)
+    (h : ConnInv n) : ConnInv (ops.foldl (connStep fuel) n) := by
+  induction ops generalizing n with
+  | nil => exact h
+  | cons op rest ih =>
+    apply ih
+    cases op with
+    | useDb sid token name user => exact C17_usedb_keeps_invariant fuel n sid token name user h
+    | disconnect sid => exact C17_disconnect_keeps_invariant n sid h
+
+end Nun
+
+
+namespace Nun
+
+/-- non-vacuity: a node without sessions whose databases all count 0 connections satisfies the
+invariant (this is the state right after start-up) -/
+theorem connInv_start (n : Node) (hs : n.sessions = []) (hnd : AL.NoDupKeys n.dbs)
+    (hn : ∀ name db, AL.get? n.dbs name = some db → db.name = name ∧ db.conns = 0) : ConnInv n := by
+  refine ⟨hnd, by rw [hs]; simp [AL.NoDupKeys], fun name db h => (hn name db h).1, ?_⟩
+  intro name db h
+  rw [(hn name db h).2]
+  simp [boundTo, hs]
 
 end Nun
